@@ -128,6 +128,13 @@ def proof_obligations(module, extra_targets=()):
     audit = lean_source_audit()
     if audit:
         res["failures"].append({"kind": "source-audit", "hits": audit[:20]})
+    if rc == 0 and os.environ.get("VERIF_TIER_EFFECTIVE") == "thorough":
+        # independent re-check of the compiled module (and everything it imports from this project) by leanchecker
+        t1 = time.time()
+        rc3, out3 = sh(["lake", "env", "leanchecker", module], cwd=LEAN, timeout=3600)
+        res["leanchecker"] = {"rc": rc3, "seconds": round(time.time() - t1, 1)}
+        if rc3 != 0:
+            res["failures"].append({"kind": "leanchecker", "module": module, "log": out3[-1500:]})
     res["obligations"] = max(len(ax), 1)
     res["discharged"] = sum(1 for t, a in ax.items() if all(x in ALLOWED_AXIOMS for x in a)) if rc == 0 else 0
     return res
